@@ -173,3 +173,59 @@ func H10_race_replay() {
 		e.s.Fini()
 	}
 }
+
+// H10_hb: happens-before race detection (job parameter hbrace=1) over concurrent use: reads
+// arrive (and pile up while the application does not poll), a resize is notified, and the
+// application thread meanwhile draws, queries, posts and finally polls and shuts down.
+// Every pair of accesses to the same memory by different goroutines must be ordered by a
+// channel operation, a lock, a WaitGroup or a go statement; an unordered pair is reported
+// and replayed under the Go race detector with the same inputs.
+func H10_hb() {
+	e := h01New("xterm-256color", 3, 1, false)
+	fill := []int{0, 10}[vsymChoice("fill", 2)]
+	for i := 0; i < fill; i++ {
+		_ = e.s.PostEvent(NewEventInterrupt(nil))
+	}
+	reads := 1 + vsymChoice("reads", 3)
+	for i := 0; i < reads; i++ {
+		e.tty.inCh <- []byte{byte('a' + 2*i), byte('b' + 2*i)}
+		vsymRunBlocked()
+	}
+	if vsymChoice("resize", 2) == 1 && e.tty.cb != nil {
+		e.tty.w, e.tty.h = 4, 2
+		e.tty.vt.resizeTo(4, 2)
+		e.tty.cb()
+	}
+	switch vsymChoice("app", 8) {
+	case 0:
+		e.s.SetContent(1, 0, 'x', nil, StyleDefault)
+		e.s.Show()
+	case 1:
+		e.s.Sync()
+	case 2:
+		_, _ = e.s.Size()
+		_ = e.s.HasPendingEvent()
+	case 3:
+		_ = e.s.PostEvent(NewEventInterrupt(nil))
+	case 4:
+		e.s.EnableMouse()
+		e.s.EnablePaste()
+	case 5:
+		e.s.SetCursorStyle(CursorStyleSteadyBar)
+		e.s.ShowCursor(0, 0)
+		e.s.Show()
+	case 6:
+		_ = e.s.Suspend()
+		_ = e.s.Resume()
+	case 7:
+		e.s.Beep()
+		_ = e.s.CanDisplay('x', true)
+	}
+	vsymRunBlocked()
+	for e.s.HasPendingEvent() {
+		e.s.PollEvent()
+		vsymRunBlocked()
+	}
+	e.s.Fini()
+	vsymAssert(e.t.fini && !e.tty.running, "the scenario ran to its end (Fini returned, the tty is stopped)")
+}
